@@ -263,6 +263,9 @@ def check_r2(facts, rep, crate):
     ]
     for pat, want in specs:
         bs = bodies(crate, pat)
+        if not bs and "read_address" in pat:
+            # the address reader written inline in read_request: the "address type not supported" reply lives there
+            bs = bodies(crate, r"^v5::read_request::\{closure#0\}$")
         if not bs:
             rep.bad(rid, pat, "", "writer body not found (anchor missing)")
             continue
@@ -525,6 +528,72 @@ def role_source(tr, node):
     return None
 
 
+V5_ADDR_WANT = {
+    "1": (("read", 1), ("read_exact", ("c", 4))),
+    "3": (("read", 1), ("read", 1), ("read_exact", ("var",))),
+    "4": (("read", 1), ("read_exact", ("c", 16))),
+}
+
+
+def _v5_merged(facts, rep, rid, b, words, tr, guards, where):
+    """read_request with the address reader written inline: VER CMD RSV, then per ATYP the address octets, then PORT."""
+    table = {}
+    okw = []
+    for w in words:
+        case = [e[1] for e in w if e[0] == "case"]
+        if not case:
+            continue
+        ok = any(e[0] == "ret" and e[1] == "Ok" for e in w)
+        seq = tuple((e[0], e[1]) for e in w if e[0] in ("read", "read_exact", "write"))
+        if ok:
+            okw.append(w)
+        if ok or "other" in case[0]:
+            table.setdefault(case[0], set()).add((ok, seq))
+    pre = (("read", 1),) * 3
+    want = {k: {(True, pre + v + (("read", 2),))} for k, v in V5_ADDR_WANT.items()}
+    got = {k: v for k, v in table.items() if k in want}
+    if got == want and all(e[2] == "be" for w in okw for e in w if e[0] == "read"):
+        rep.ok(rid, "v5::read_request/sequence", where, "VER CMD RSV ATYP ADDR PORT(2,be) (address reader inline)")
+        rep.ok(rid, "v5::read_address/table", where, "ATYP 1->4 octets, 3->len+len octets, 4->16 octets (inline)")
+    else:
+        rep.bad(rid, "v5::read_request/sequence", where, "reads per address type are %s, RFC 1928 sections 4-5 require %s" % (got, want))
+    other = table.get("other")
+    if other and all((not ok) and any(s_[0] == "write" for s_ in seq) for ok, seq in other):
+        rep.ok(rid, "v5::read_address/unsupported", where, "unknown ATYP -> reply written, Err returned (inline)")
+    else:
+        rep.bad(rid, "v5::read_address/unsupported", where, "unknown ATYP is not answered with a reply + error: %s" % other)
+    # roles: command <- 2nd octet, port <- the trailing read_u16; version check on the 1st octet
+    rolesok = bool(okw)
+    vchk = False
+    for w in okw:
+        sites = [e[-1] for e in w if e[0] == "read"]
+        rt = None
+        for x in walk(tr.local(0)):
+            if x.kind == "agg" and x[1] == "tuple" and len(x[3]) == 3:
+                rt = dict(x[3])
+                break
+        if not rt or len(sites) < 5:
+            rolesok = False
+            continue
+        c0, c2 = role_source(tr, rt["0"]), role_source(tr, rt["2"])
+        if c0 != ("read_u8", sites[1]) or not c2 or c2[0] != "read_u16":
+            rolesok = False
+        for bb, g in guards.items():
+            if g and g.kind == "bool":
+                p = strip(g.pred)
+                if p.kind == "bin" and p[1] in ("Ne", "Eq") and const_eval(p[3]) == 5 and role_source(tr, p[2]) and role_source(tr, p[2])[1] == sites[0]:
+                    vchk = True
+    if rolesok:
+        rep.ok(rid, "v5::read_request/roles", where, "(command<-2nd octet, port<-read_u16) (address reader inline)")
+    else:
+        rep.bad(rid, "v5::read_request/roles", where, "result roles are not (command<-2nd octet, address, port<-read_u16)")
+    if vchk:
+        rep.ok(rid, "v5::read_request/version", where, "first octet compared with VER_5")
+    else:
+        rep.bad(rid, "v5::read_request/version", where, "first octet is not compared with VER_5 (=5)")
+    return 1
+
+
 def check_r3(facts, rep, crate):
     rid = "C18.R3"
     rep.rule(rid, "request readers: RFC read sequence (order, widths), result roles (command, address, port), "
@@ -540,7 +609,10 @@ def check_r3(facts, rep, crate):
         where = "%s (%s)" % (loc_str(b.loc), b.path)
         ok = [w for w in words if any(e[0] == "ret" and e[1] == "Ok" for e in w)]
         n += 1
-        if len(ok) != 1:
+        merged = not bodies(crate, r"^v5::read_address::\{closure#0\}$")
+        if merged:
+            n += _v5_merged(facts, rep, rid, b, words, tr, guards, where)
+        elif len(ok) != 1:
             rep.bad(rid, "v5::read_request/paths", where, "expected one success path, found %d" % len(ok))
         else:
             seq = [(e[0], e[1]) for e in ok[0] if e[0] in ("read", "call", "read_exact", "read_until")]
@@ -582,7 +654,9 @@ def check_r3(facts, rep, crate):
         rep.bad(rid, "v5::read_request", "", "reader not found (anchor missing)")
     # ---- v5::read_address
     bs = bodies(crate, r"^v5::read_address::\{closure#0\}$")
-    if bs:
+    if not bs and bodies(crate, r"^v5::read_request::\{closure#0\}$"):
+        pass    # decided together with read_request (address reader written inline): _v5_merged
+    elif bs:
         b = bs[0]
         rep.analysed(b)
         words, tr, guards, ex = reader_words(facts, b)
